@@ -8,7 +8,14 @@ requests (floats as 16 hex digits or `nan`, rationals as p/q; G = `nrows ncols x
   isect G Gfine [cells]          -> ok [cells] [weights] rs re cs ce axll ayll anrows ancols [data] | err:noOverlap
   vor   G [cells] [x,y;...]      -> ok [weights] | err:noPoints  dist = sqrt(dx*dx+dy*dy)
   kernQ / isectQ / vorQ          the same at exact rationals (vorQ: dist = dx*dx+dy*dy, same arg-min)
+  isectc G Gfine area filled flag -> as isect | err:cellsNone   Catchment.intersect; area / filled = [cells] | none, flag 0|1
+  vorpy G area scalar x | flat [xs] | rows w [r;r;...]  -> ok [weights] | err:notDelineated | err:badShape | err:noPoints | err:badGrid
 -/
+
+def optCells? (s : String) : Option (Option (List Int)) :=
+  if s = "none" then some none else (parseIntList? s).map some
+
+def fmtOptW (w : List (Option Float)) : String := "ok " ++ fmtList (w.map fmtOptFloat)
 
 def geomF? (nr nc xll yll csz : String) : Option (Geom Float) :=
   match nr.toInt?, nc.toInt?, floatTok? xll, floatTok? yll, floatTok? csz with
@@ -42,6 +49,10 @@ def fmtArea {β} (fmt : β → String) (a : AreaGrid β) : String :=
 def errName : C16.Err → String
   | .noOverlap => "err:noOverlap"
   | .noPoints => "err:noPoints"
+  | .badGrid => "err:badGrid"
+  | .notDelineated => "err:notDelineated"
+  | .cellsNone => "err:cellsNone"
+  | .badShape => "err:badShape"
 
 def distF (dx dy : Float) : Float := Float.sqrt (dx * dx + dy * dy)
 def distQ (dx dy : Rat) : Rat := dx * dx + dy * dy
@@ -79,7 +90,6 @@ def handle (toks : List String) : String :=
   | ["vor", nr, nc, xll, yll, csz, cells, pts] =>
     match geomF? nr nc xll yll csz, parseIntList? cells, pairs? floatTok? pts with
     | some g, some cs, some ps =>
-      if g.ncols = 0 then "err:div0" else
       match cVoronoi distF g cs ps with
       | .ok w => "ok " ++ fmtList (w.map fmtOptFloat)
       | .error e => errName e
@@ -87,11 +97,38 @@ def handle (toks : List String) : String :=
   | ["vorQ", nr, nc, xll, yll, csz, cells, pts] =>
     match geomQ? nr nc xll yll csz, parseIntList? cells, pairs? ratTok? pts with
     | some g, some cs, some ps =>
-      if g.ncols = 0 then "err:div0" else
       match cVoronoi distQ g cs ps with
       | .ok w => "ok " ++ fmtList (w.map fun o => match o with | some r => fmtRat r | none => "nan")
       | .error e => errName e
     | _, _, _ => "bad-op"
+  | ["isectc", nr, nc, xll, yll, csz, fnr, fnc, fxll, fyll, fcsz, area, filled, flag] =>
+    match geomF? nr nc xll yll csz, geomF? fnr fnc fxll fyll fcsz, optCells? area, optCells? filled with
+    | some g, some f, some a, some fl =>
+      match Catchment.intersect ⟨f, a, fl⟩ g (flag = "1") with
+      | .ok a => fmtArea hexOfFloat a
+      | .error e => errName e
+    | _, _, _, _ => "bad-op"
+  | ["vorpy", nr, nc, xll, yll, csz, area, kind, a1] =>
+    match geomF? nr nc xll yll csz, optCells? area with
+    | some g, some a =>
+      let arg? : Option (PtsArg Float) :=
+        if kind = "scalar" then (floatTok? a1).map PtsArg.scalar
+        else if kind = "flat" then (parseFloatList? a1).map PtsArg.flat
+        else none
+      match arg? with
+      | some arg => match voronoiPy distF g a arg with
+        | .ok w => fmtOptW w
+        | .error e => errName e
+      | none => "bad-op"
+    | _, _ => "bad-op"
+  | ["vorpy", nr, nc, xll, yll, csz, area, "rows", w, rs] =>
+    match geomF? nr nc xll yll csz, optCells? area, w.toNat?, parseFloatMat? rs with
+    | some g, some a, some w, some rs =>
+      if rs.any (fun r => r.length ≠ w) then "bad-op" else
+      match voronoiPy distF g a (PtsArg.rows w rs) with
+      | .ok w => fmtOptW w
+      | .error e => errName e
+    | _, _, _, _ => "bad-op"
   | _ => "bad-op"
 
 def main : IO Unit := serve handle
